@@ -1,7 +1,7 @@
 """C09 — progress callbacks account for exactly the transferred bytes."""
 import random
 
-from .. import e2e, oracles
+from .. import e2e, gen, oracles
 from ..director import STREAM_KINDS
 
 PROPERTY = 'C09'
@@ -212,6 +212,26 @@ def gen_cases(tier, seed):
         cases.append({'seed': rng.randrange(1 << 30), 'min_part': C, 'config': dict(multipart_threshold=T, multipart_chunksize=C, max_request_concurrency=rng.choice([1, 2])),
                       'transfers': [t], 'prior_use': rng.choice(['legacy', 'manager', 'overlap']), 'family': 'shared-client'})
 
+    # ONE subscriber object given to several transfers of a manager (a progress printer): each transfer's progress goes to the callbacks
+    # with ITS future and sums to ITS size
+    for i in range(30 if quick else 300):
+        T, C = rng.choice([(16, 8), (8, 8)])
+        n = rng.choice([2, 3])
+        ts = []
+        for j in range(n):
+            kind, extra = rng.choice([k for k in gen.KINDS if k[0] != 'delete' and k[1].get('dst') != 'fifo'])
+            t = dict({'kind': kind, 'size': rng.choice([5, T, 3 * C + 1, 4 * C])}, **extra)
+            if j == 0:
+                t['subs'] = [{'flavor': 'shared'}]
+            else:
+                t['share_subs_with'] = 0
+            ts.append(t)
+        spec = {'seed': rng.randrange(1 << 30), 'min_part': C, 'config': dict(multipart_threshold=T, multipart_chunksize=C, max_request_concurrency=rng.choice([1, 2, 3])),
+                'transfers': ts, 'family': 'shared-subscriber'}
+        if rng.random() < 0.4:
+            spec['sequential'] = True
+        cases.append(spec)
+
     from ..gen import sprinkle
 
     sprinkle(cases, seed)
@@ -226,13 +246,13 @@ def evaluate(obs):
     for x in obs.xfers:
         stats['success' if x.outcome == 'success' else 'failed'] += 1
         viol += oracles.progress_oracle(obs, x)
-        for s in x.subs:
+        for s in oracles.subs_of(x):
             stats['progress_calls'] += len(s.progress)
             stats['negative_deliveries'] += len([p for p in s.progress if p < 0])
             if x.outcome == 'success' and x.spec.get('size', 0) > 0 and s.progress:
                 nontrivial = True
         stats['max_size'] = max(stats['max_size'], x.spec.get('size', 0))
-    summary = {'outcomes': e2e.default_outcomes(obs), 'progress': {x.label: x.subs[0].progress[:16] for x in obs.xfers if x.subs},
+    summary = {'outcomes': e2e.default_outcomes(obs), 'progress': {x.label: oracles.subs_of(x)[0].progress[:16] for x in obs.xfers if x.subs},
                'client': obs.spec.get('client')}
     return viol, stats, nontrivial, summary
 
